@@ -220,7 +220,7 @@ def oracles(trial, calls):
             for i, fs in per_src.items():
                 if srcs[i]['eph']:
                     k = fs[0][1]
-                    if len({m for _, m, _, _ in fs}) > 1: v['C05'].append(('eph-mixed', f'source {i}'))
+                    if wf and len({m for _, m, _, _ in fs}) > 1: v['C05'].append(('eph-mixed', f'source {i}'))   # only for legitimate upstreams: after a CLOSE the per-source id restarts by design
                     if i in eph_last and k < eph_last[i] and wf: v['C05'].append(('eph-order', f'source {i}: id {k} after {eph_last[i]}'))
                     eph_last[i] = max(k, eph_last.get(i, k))
                 if wf:   # completeness: exactly the subscribed topics published under that block
